@@ -32,8 +32,8 @@ CLAIMED = {
         technique="MIR guard-edge dominance + interprocedural caller-chain check for constant-0 ring positions; must-pass-through; field-set agreement + strict guard relation for the sentinel slot",
         text="Partial: the ring invariants the WAL code relies on are decided on all paths - a ring position becomes 0 only where pending_bytes == 0 is established "
              "(in the function or at every caller), an append writes only after both capacity comparisons and is always followed by the sentinel, a checkpoint stores "
-             "exactly the reviewed fields from write_head/sequence, scan reports a record only after checksum equality and bounds, records_after filters strictly by sequence. The zero sentinel is written only where pending_bytes < region_size (a full ring has no free slot). On the open path every value placed in EmbeddedWal.sequence derives from Header.wal_sequence or the handle's own counters, so numbering continues after the checkpoint. The pending byte count on the open path is the sum of total_size over scanned records selected by sequence.",
-        note="Not decided: the exhaustive state-space claim over operation sequences and sizes (value reasoning). The rule found a genuine defect on the pinned tree (sentinel wrap), repaired by fix commit f7468a8.",
+             "exactly the reviewed fields from write_head/sequence, scan reports a record only after checksum equality and bounds, records_after filters strictly by sequence. The zero sentinel is written only where pending_bytes < region_size (a full ring has no free slot). On the open path every value placed in EmbeddedWal.sequence derives from Header.wal_sequence or the handle's own counters, so numbering continues after the checkpoint. The pending byte count on the open path is the sum of total_size over scanned records selected by sequence. The sentinel is never written at offset 0 while records are pending (head at 0 with records pending = the last record ended exactly on the region boundary).",
+        note="Not decided: the exhaustive state-space claim over operation sequences and sizes (value reasoning). The rule found a genuine defect on the pinned tree (sentinel wrap), repaired by fix commit f7468a8. A second genuine defect (sentinel over the first record when a pending record ends exactly on the region boundary) was found by GUARD-C05j and repaired by fix commit a391e88.",
         design_ref="DESIGN.md §4 C05"),
     "C01": dict(
         technique="MIR must-pass-through (success-edge dominance of Ok exits) + who-may-call tables over the call graph + sign-abstraction direction analysis of in-place block-move loops",
@@ -131,7 +131,7 @@ CLAIMED = {
     "C13": dict(
         technique="edge-cut reachability of VecIndex::search past the dimension comparison (sibling entry points) + shape of the exact arm (score-all, ascending comparator, truncate after sort) + constant agreement in the lane-blocked distance kernel (blocks, lane offsets, tail start, remainder share one lane width)",
         text="Partial: both vector entry points reach VecIndex::search only past query.len() == index dimension (mismatch -> VecDimensionMismatch); the exact arm scores every "
-             "document, sorts ascending on distance and truncates afterwards; the SIMD distance kernel partitions the index range (len/L blocks of L lanes, tail from chunks*L, len%L tail elements, one L). Fails closed if the ordering mechanism is replaced by one the rule does not recognise.",
+             "document, sorts ascending on distance and truncates afterwards; the SIMD distance kernel partitions the index range (len/L blocks of L lanes, tail from chunks*L, len%L tail elements, one L). Fails closed if the ordering mechanism is replaced by one the rule does not recognise. The exact arm is recognised inline or through a private helper that receives the documents.",
         note="Not decided: floating-point semantics (NaN ordering), approximate representations, identity of results after reopen.",
         design_ref="DESIGN.md §4 C13"),
     "C14": dict(
